@@ -1,75 +1,26 @@
-(* C09, data-file level: the text of a block (strip vs. cut at the first unused-space byte), rows and region
-   geometry (VP/JC -> region inside the safe area, over Q), subtitle numbers, grouping and the per-block steps.  Each statement that is false of the faithful model has its refutation next to the partial lemma. *)
+(* C09, data-file level: the text of a block (cut at the first unused-space byte), rows and region geometry (VP/JC ->
+   region inside the safe area, over Q), subtitle numbers, grouping and the per-block steps.  The whole-file composition
+   is Proofs/C09/File.v. *)
 From Coq Require Import QArith Lia.
 From TT Require Import Base.Prelude Gen.StlTables Model.TimeCode Model.Iso6937 Model.StlTf Model.StlDatafile Model.StlTriggers Spec.Ebu3264Spec.
 Open Scope Z_scope.
 
-(* ---- bytes.strip(b'\x8f') against "up to the first unused-space byte" ------------------------------------ *)
+(* ---- bytes.partition(b'\x8f')[0] is "up to the first unused-space byte" ---------------------------------- *)
 Definition clean (t : list Z) : bool := forallb (fun b => negb (b =? 143)) t.
 
-Lemma after_filler_true r : after_filler r true = false -> r = repeat 143 (length r).
+(* the text of a block: the implementation's cut is the standard's (tf-strip-not-cut was repaired: every field) *)
+Lemma cut_is_cut tf : before_8f tf = text_of_field tf.
+Proof. induction tf as [|b r IH]; [reflexivity|]. cbn [before_8f text_of_field]. change filler with 143. rewrite IH. reflexivity. Qed.
+Lemma cut_clean tf : clean (before_8f tf) = true.
 Proof.
-  induction r as [|b r IH]; [reflexivity|]. cbn [after_filler]. destruct (b =? 143) eqn:E.
-  - intros H. apply Z.eqb_eq in E; subst b. cbn [length repeat]. f_equal. apply IH, H.
-  - cbn [orb]. discriminate.
+  induction tf as [|b r IH]; [reflexivity|]. cbn [before_8f]. destruct (b =? 143) eqn:E; [reflexivity|].
+  cbn [clean forallb]. rewrite E. exact IH.
 Qed.
-
-Lemma well_shaped tf : trigger_strip tf = false -> exists t k, tf = t ++ repeat 143 k /\ clean t = true.
+Lemma text_of_clean_id t : clean t = true -> text_of_field t = t.
 Proof.
-  unfold trigger_strip. induction tf as [|b r IH]; intros H.
-  - exists [], O. split; reflexivity.
-  - cbn [after_filler] in H. destruct (b =? 143) eqn:E.
-    + apply Z.eqb_eq in E; subst b. apply after_filler_true in H. exists [], (S (length r)). split; [|reflexivity].
-      cbn [app repeat]. f_equal. exact H.
-    + cbn [orb] in H. destruct (IH H) as (t & k & Hr & Hc). exists (b :: t), k. split.
-      * cbn [app]. f_equal. exact Hr.
-      * cbn [clean forallb]. rewrite E. exact Hc.
+  induction t as [|b t IH]; [reflexivity|]. cbn [clean forallb text_of_field]. change filler with 143. intros H.
+  apply andb_true_iff in H as [Hb Ht]. destruct (b =? 143); [discriminate|]. f_equal. apply IH, Ht.
 Qed.
-
-Lemma text_of_repeat k : text_of_field (repeat 143 k) = [].
-Proof. destruct k; reflexivity. Qed.
-Lemma text_of_clean t k : clean t = true -> text_of_field (t ++ repeat 143 k) = t.
-Proof.
-  induction t as [|b t IH]; intros H; [apply text_of_repeat|].
-  cbn [clean forallb] in H. apply andb_true_iff in H as [Hb Ht]. cbn [app text_of_field]. change filler with 143.
-  destruct (b =? 143); [discriminate|]. f_equal. apply IH, Ht.
-Qed.
-
-Lemma lstrip_repeat k l : lstrip_8f (repeat 143 k ++ l) = lstrip_8f l.
-Proof. induction k as [|k IH]; [reflexivity|]. cbn [repeat app lstrip_8f]. rewrite Z.eqb_refl. exact IH. Qed.
-Lemma lstrip_clean l : clean l = true -> lstrip_8f l = l.
-Proof.
-  destruct l as [|b l]; [reflexivity|]. cbn [clean forallb lstrip_8f]. intros H. apply andb_true_iff in H as [Hb _].
-  destruct (b =? 143); [discriminate | reflexivity].
-Qed.
-Lemma clean_rev t : clean t = true -> clean (rev t) = true.
-Proof.
-  unfold clean. rewrite !forallb_forall. intros H x Hx. apply H, in_rev, Hx.
-Qed.
-Lemma rev_repeat_143 k : rev (repeat 143 k) = repeat 143 k.
-Proof.
-  induction k as [|k IH]; [reflexivity|]. cbn [repeat rev]. rewrite IH. symmetry. apply repeat_cons.
-Qed.
-
-Lemma strip_clean t k : clean t = true -> strip_8f (t ++ repeat 143 k) = t.
-Proof.
-  intros H. unfold strip_8f.
-  destruct t as [|b t].
-  - cbn [app]. rewrite <- (app_nil_r (repeat 143 k)), lstrip_repeat. reflexivity.
-  - assert (Hl : lstrip_8f ((b :: t) ++ repeat 143 k) = (b :: t) ++ repeat 143 k).
-    { cbn [app lstrip_8f]. cbn [clean forallb] in H. apply andb_true_iff in H as [Hb _]. destruct (b =? 143); [discriminate | reflexivity]. }
-    rewrite Hl, rev_app_distr, rev_repeat_143, lstrip_repeat, (lstrip_clean _ (clean_rev _ H)). apply rev_involutive.
-Qed.
-
-(* the text of a block: the implementation's strip is the standard's cut, unless something follows an unused-space byte *)
-Lemma strip_is_cut tf : trigger_strip tf = false -> strip_8f tf = text_of_field tf.
-Proof.
-  intros H. destruct (well_shaped tf H) as (t & k & -> & Hc). rewrite strip_clean, text_of_clean by exact Hc. reflexivity.
-Qed.
-Lemma strip_is_cut_refuted : exists tf, strip_8f tf <> text_of_field tf.
-Proof. exists [143; 65; 66]. vm_compute. discriminate. Qed.
-Lemma strip_clean_result tf : trigger_strip tf = false -> clean (strip_8f tf) = true.
-Proof. intros H. destruct (well_shaped tf H) as (t & k & -> & Hc). rewrite strip_clean by exact Hc. exact Hc. Qed.
 
 (* ---- rows --------------------------------------------------------------------------------------------------- *)
 Lemma line_count_breaks dh : forall bs count was, line_count_go dh bs count was = count + count_breaks dh bs was + 1.
@@ -79,8 +30,6 @@ Proof.
   destruct (c =? 138); [|rewrite IH; lia].
   destruct dh; cbn [andb]; [destruct was|]; rewrite IH; lia.
 Qed.
-Lemma text_of_clean_id t : clean t = true -> text_of_field t = t.
-Proof. intros H. rewrite <- (app_nil_r t) at 1. apply (text_of_clean t 0 H). Qed.
 
 (* rows needed by a field without unused-space bytes: line_count x row height = the specification's rows_occupied *)
 Lemma rows_agree tf : line_count tf (has_double_height_char tf) * (if has_double_height_char tf then 2 else 1) = rows_occupied tf.
@@ -89,18 +38,17 @@ Proof.
 Qed.
 
 (* ---- region --------------------------------------------------------------------------------------------------- *)
-Definition rect_of (r : region) : rect := mkRect (r_x r) (r_y r) (r_w r) (r_h r) (r_after r).
+Lemma max_first_row vp : Z.max vp 1 = first_row vp.
+Proof. unfold first_row. destruct (vp <? 1) eqn:E; lia. Qed.
 
-Definition rect_equiv (a b : rect) : Prop :=
-  (x0 a == x0 b /\ y0 a == y0 b /\ width a == width b /\ height a == height b)%Q /\ align_after a = align_after b.
-
-(* the region of a new subtitle is the specification's top-anchored region of row VP or bottom-anchored region of
-   the subtitle's last row; the anchor is chosen by VP < max_rows // 2 *)
+(* the region of a new subtitle is the specification's top-anchored region of its first row (VP, or row 1 for VP = 0)
+   or the bottom-anchored region of its last row; the anchor is chosen by first row < max_rows // 2 *)
 Lemma region_choice max_rows vp tf r : region_for max_rows vp tf (has_double_height_char tf) = Some r ->
-  (vp < max_rows / 2 /\ rect_equiv (rect_of r) (top_anchored max_rows vp)) \/
-  (max_rows / 2 <= vp /\ rect_equiv (rect_of r) (bottom_anchored max_rows (vp + rows_occupied tf - 1))).
+  (first_row vp < max_rows / 2 /\ rect_equiv (rect_of r) (top_anchored max_rows (first_row vp))) \/
+  (max_rows / 2 <= first_row vp /\ rect_equiv (rect_of r) (bottom_anchored max_rows (first_row vp + rows_occupied tf - 1))).
 Proof.
-  unfold region_for. destruct (vp <? max_rows / 2) eqn:E.
+  unfold region_for. cbv zeta. rewrite max_first_row. generalize (first_row vp) as v. intros v.
+  destruct (v <? max_rows / 2) eqn:E.
   - intros H. injection H as <-. left. split; [lia|]. unfold rect_equiv, rect_of, top_anchored, row_top.
     cbn [r_x r_y r_w r_h r_after x0 y0 width height align_after]. repeat split; try reflexivity;
     unfold qz, safe_top, safe_height; change default_vertical_safe_margin_pct with 10; change safe_area_height with 80;
@@ -109,6 +57,12 @@ Proof.
     rewrite <- rows_agree. unfold rect_equiv, rect_of, bottom_anchored, row_bottom.
     cbn [r_x r_y r_w r_h r_after x0 y0 width height align_after]. repeat split; try reflexivity;
     unfold qz, safe_top, safe_height; change safe_area_height with 80; change (inject_Z 80) with 80%Q; ring.
+Qed.
+(* with at least one row the region always exists (the division by max_row_count is the only partial step) *)
+Lemma region_exists max_rows vp tf dh : max_rows <> 0 -> exists r, region_for max_rows vp tf dh = Some r.
+Proof.
+  intros H. unfold region_for. cbv zeta. destruct (Z.max vp 1 <? max_rows / 2); [eexists; reflexivity|].
+  destruct (max_rows =? 0) eqn:E; [lia | eexists; reflexivity].
 Qed.
 
 (* both regions lie inside the safe area when the subtitle's rows lie inside the row grid *)
@@ -147,11 +101,31 @@ Proof.
   - setoid_replace (10 + q * 80 - 10)%Q with (80 * q)%Q by ring. apply Qmult_le_0_compat; [discriminate | exact H0].
 Qed.
 
-(* VP = 0 (a legal value for open subtitles) in the upper half: the region starts above the safe area *)
-Lemma region_vp_zero_refuted : exists rows tf r, region_for rows 0 tf false = Some r /\ ~ inside_safe_area (rect_of r).
+(* being inside the safe area is a property of the rectangle up to == *)
+Lemma inside_equiv a b : rect_equiv a b -> inside_safe_area b -> inside_safe_area a.
 Proof.
-  exists 23, [65], (mkRegion (qz 5) (qz 10 + (qz (-1) / qz 23) * qz 80)%Q (qz 90) (qz 90 - (qz 10 + (qz (-1) / qz 23) * qz 80))%Q false).
-  split; [reflexivity|]. unfold inside_safe_area. intros (_ & _ & H & _). vm_compute in H. apply H. reflexivity.
+  intros ((Hx & Hy & Hw & Hh) & _) (H1 & H2 & H3 & H4 & H5). unfold inside_safe_area.
+  rewrite Hx, Hy, Hw, Hh. repeat split; assumption.
+Qed.
+
+Lemma count_breaks_nonneg dh : forall t was, 0 <= count_breaks dh t was.
+Proof.
+  induction t as [|c r IH]; intros was; cbn [count_breaks]; [lia|].
+  destruct (c =? newline_code); [destruct (dh && was); [apply IH | specialize (IH true); lia] | apply IH].
+Qed.
+Lemma rows_occupied_pos tf : 1 <= rows_occupied tf.
+Proof. unfold rows_occupied. pose proof (count_breaks_nonneg (double_height tf) tf false). destruct (double_height tf); lia. Qed.
+
+(* the region of every subtitle whose rows fit the grid lies inside the safe area - for every VP, 0 included
+   (vp-zero-above-safe-area was repaired) *)
+Lemma region_inside rows vp tf r : 0 < rows -> region_for rows vp tf (has_double_height_char tf) = Some r ->
+  first_row vp + rows_occupied tf - 1 <= rows -> inside_safe_area (rect_of r).
+Proof.
+  intros Hr H Hfit. pose proof (rows_occupied_pos tf) as Hk.
+  assert (Hv : 1 <= first_row vp) by (unfold first_row; destruct (vp <? 1) eqn:E; lia).
+  destruct (region_choice rows vp tf r H) as [[Hlt He]|[Hge He]]; eapply inside_equiv; try exact He.
+  - apply top_inside; [exact Hr|]. assert (rows / 2 <= rows) by (apply Z.div_le_upper_bound; lia). lia.
+  - apply bottom_inside; [exact Hr | lia].
 Qed.
 
 (* ---- witness files (used by Findings/C09.v and the examples of Properties/C09.v) ----------------------------------- *)
@@ -173,7 +147,7 @@ Proof.
   - intros Heq. injection Heq as ->. rewrite Z.eqb_refl in E. discriminate.
 Qed.
 
-(* ---- grouping: extension blocks are concatenated, user-data/reserved blocks are skipped --------------------------- *)
+(* ---- grouping: extension blocks are concatenated, user-data/reserved and comment blocks are skipped ----------------- *)
 Definition is_ext (t : tti) : bool := text_block t && negb (t_ebn t =? 255).
 Definition ext_or_skip (t : tti) : Prop := is_ext t = true \/ text_block t = false.
 Definition acc_tf (s : state) : list Z := if st_in_ext s then st_tf s else [].
@@ -186,18 +160,28 @@ Fixpoint fold_blocks (f : datafile) (s : state) (ts : list tti) : state + error 
 
 Lemma process_skip f s t : text_block t = false -> process_tti f s t = inl s.
 Proof.
-  unfold text_block, process_tti. intros H. destruct ((239 <? t_ebn t) && (t_ebn t <? 255)); [reflexivity | discriminate].
+  unfold text_block, process_tti. intros H. destruct ((239 <? t_ebn t) && (t_ebn t <? 255)); [reflexivity|].
+  destruct (t_cf t =? 1); [reflexivity | discriminate].
 Qed.
 Lemma process_ext f s t : is_ext t = true ->
-  process_tti f s t = inl (mkState true (acc_tf s ++ strip_8f (t_tf t)) (st_last_sn s) (st_divs s) (st_cur s) (st_regions s)).
+  process_tti f s t = inl (mkState true (acc_tf s ++ before_8f (t_tf t)) (st_last_sn s) (st_divs s) (st_cur s) (st_regions s)).
 Proof.
   unfold is_ext, text_block, process_tti, acc_tf. intros H. apply andb_true_iff in H as [H1 H2].
-  destruct ((239 <? t_ebn t) && (t_ebn t <? 255)); [discriminate|]. rewrite H2. reflexivity.
+  destruct ((239 <? t_ebn t) && (t_ebn t <? 255)); [discriminate|].
+  destruct (t_cf t =? 1); [discriminate|]. rewrite H2. reflexivity.
+Qed.
+(* the terminal block of a subtitle: the rest of process_tti_block runs on the accumulated field *)
+Lemma process_terminal f s t : text_block t = true -> t_ebn t = 255 ->
+  process_tti f s t = complete_subtitle f s t (acc_tf s ++ before_8f (t_tf t)).
+Proof.
+  unfold text_block, process_tti, acc_tf. intros H He.
+  destruct ((239 <? t_ebn t) && (t_ebn t <? 255)); [discriminate|].
+  destruct (t_cf t =? 1); [discriminate|]. rewrite He. reflexivity.
 Qed.
 
 Lemma ext_chain f : forall ts s, Forall ext_or_skip ts ->
   exists s', fold_blocks f s ts = inl s' /\
-             acc_tf s' = acc_tf s ++ concat (map (fun x => strip_8f (t_tf x)) (filter text_block ts)) /\
+             acc_tf s' = acc_tf s ++ concat (map (fun x => before_8f (t_tf x)) (filter text_block ts)) /\
              st_last_sn s' = st_last_sn s /\ st_divs s' = st_divs s /\ st_cur s' = st_cur s /\ st_regions s' = st_regions s.
 Proof.
   induction ts as [|t r IH]; intros s H.
@@ -205,30 +189,25 @@ Proof.
   - inversion H as [|? ? Ht Hr]; subst. cbn [fold_blocks filter]. destruct Ht as [Ht|Ht].
     + rewrite (process_ext f s t Ht).
       assert (Htb : text_block t = true) by (unfold is_ext in Ht; apply andb_true_iff in Ht; tauto). rewrite Htb.
-      destruct (IH (mkState true (acc_tf s ++ strip_8f (t_tf t)) (st_last_sn s) (st_divs s) (st_cur s) (st_regions s)) Hr)
+      destruct (IH (mkState true (acc_tf s ++ before_8f (t_tf t)) (st_last_sn s) (st_divs s) (st_cur s) (st_regions s)) Hr)
         as (s' & Hf & Ha & H1 & H2 & H3 & H4).
       exists s'. split; [exact Hf|]. cbn [map concat]. unfold acc_tf in *. cbn [st_in_ext st_tf] in Ha.
       rewrite Ha, <- app_assoc. repeat split; assumption.
     + rewrite (process_skip f s t Ht), Ht. apply IH, Hr.
 Qed.
 
-(* the text field that the terminal block of a subtitle is decoded from: the stripped text fields of all its
-   text-carrying blocks, in order *)
-Lemma grouping_tf f ts s t : st_in_ext s = false -> Forall ext_or_skip ts -> text_block t = true ->
+(* the text field that the terminal block of a subtitle is decoded from: the texts (Tech 3264: up to the first
+   unused-space byte) of all its text-carrying blocks, in order - for every chain of blocks *)
+Lemma grouping f ts s t : st_in_ext s = false -> Forall ext_or_skip ts -> text_block t = true -> t_ebn t = 255 ->
   exists s', fold_blocks f s ts = inl s' /\
-             fst (block_view f s' t) = concat (map (fun x => strip_8f (t_tf x)) (filter text_block (ts ++ [t]))).
+             process_tti f s' t =
+             complete_subtitle f s' t (concat (map (fun x => text_of_field (t_tf x)) (filter text_block (ts ++ [t])))).
 Proof.
-  intros Hs Hts Ht. destruct (ext_chain f ts s Hts) as (s' & Hf & Ha & _).
-  exists s'. split; [exact Hf|]. unfold block_view. cbn [fst]. fold (acc_tf s'). rewrite Ha.
+  intros Hs Hts Ht He. destruct (ext_chain f ts s Hts) as (s' & Hf & Ha & _).
+  exists s'. split; [exact Hf|]. rewrite (process_terminal f s' t Ht He), Ha.
   unfold acc_tf at 1. rewrite Hs. cbn [app]. rewrite filter_app, map_app, concat_app. cbn [filter]. rewrite Ht.
-  cbn [map concat]. rewrite app_nil_r. reflexivity.
-Qed.
-
-(* ... which, for well-shaped fields, is the concatenation of the blocks' texts as Tech 3264 defines them *)
-Lemma grouping_tf_spec (ts : list tti) : Forall (fun x => trigger_strip (t_tf x) = false) ts ->
-  concat (map (fun x => strip_8f (t_tf x)) ts) = concat (map (fun x => text_of_field (t_tf x)) ts).
-Proof.
-  induction 1 as [|t r Ht _ IH]; [reflexivity|]. cbn [map concat]. rewrite (strip_is_cut _ Ht), IH. reflexivity.
+  cbn [map concat]. rewrite app_nil_r, cut_is_cut.
+  rewrite (map_ext (fun x => before_8f (t_tf x)) (fun x => text_of_field (t_tf x)) (fun x => cut_is_cut (t_tf x))). reflexivity.
 Qed.
 
 (* ---- one subtitle: the terminal block of a non-cumulative subtitle with a new number ------------------------------ *)
@@ -236,14 +215,13 @@ Definition text_align_of (jc : Z) : Z := if jc =? 1 then 0 else if jc =? 3 then 
 
 (* it becomes a paragraph visible exactly from TCI to TCO (shifted by the programme start), holding the pieces of its
    accumulated text field, aligned by JC, in the region of its VP *)
-Lemma new_subtitle f s t r :
-  text_block t = true -> t_ebn t = 255 -> t_cs t = 0 -> st_last_sn s <> Some (t_sn t) ->
-  let tf := acc_tf s ++ strip_8f (t_tf t) in
+Lemma new_subtitle f s t tf r :
+  t_cs t = 0 -> st_last_sn s <> Some (t_sn t) ->
   let b := (offset_q (f_fps f) (t_tci t) - f_start f)%Q in
   let e := (offset_q (f_fps f) (t_tco t) - f_start f)%Q in
   q_neg b = false -> q_lt e b = false ->
   region_for (f_max_rows f) (t_vp t) tf (has_double_height_char tf) = Some r ->
-  exists s', process_tti f s t = inl s' /\
+  exists s', complete_subtitle f s t tf = inl s' /\
     st_cur s' = Some (t_sgn t,
                       mkPara (fst (get_region (st_regions s) r)) (text_align_of (t_jc t))
                              (if f_teletext f && negb (has_double_height_char tf) then default_single_height_font_size_pct
@@ -252,55 +230,56 @@ Lemma new_subtitle f s t r :
                              (map PLeaf (tf_model (decoder_of_cct (f_cct f)) (f_teletext f) tf))) /\
     st_regions s' = snd (get_region (st_regions s) r).
 Proof.
-  intros Htb Hebn Hcs Hsn tf b e Hb He Hr. apply sn_value in Hsn.
-  unfold process_tti. unfold text_block in Htb.
-  destruct ((239 <? t_ebn t) && (t_ebn t <? 255)); [discriminate|].
-  rewrite Hebn. cbn [Z.eqb Pos.eqb negb].
-  fold (acc_tf s). fold tf. fold b. rewrite Hb. fold e. rewrite He.
+  intros Hcs Hsn b e Hb He Hr. apply sn_value in Hsn.
+  unfold complete_subtitle. fold b. rewrite Hb. fold e. rewrite He.
   rewrite Hsn, Hcs. cbn [Z.eqb orb andb]. rewrite Hr.
   destruct (get_region (st_regions s) r) as [ri rs] eqn:Hg. cbn [st_cur fst snd].
   eexists. split; [reflexivity|]. cbn [st_cur st_regions]. split; reflexivity.
 Qed.
 
 (* a subtitle that starts before the programme start is dropped: nothing but the extension bookkeeping changes *)
-Lemma early_subtitle_dropped f s t :
-  text_block t = true -> t_ebn t = 255 -> q_neg (offset_q (f_fps f) (t_tci t) - f_start f) = true ->
-  exists s', process_tti f s t = inl s' /\ st_divs s' = st_divs s /\ st_cur s' = st_cur s /\
+Lemma early_subtitle_dropped f s t tf :
+  q_neg (offset_q (f_fps f) (t_tci t) - f_start f) = true ->
+  exists s', complete_subtitle f s t tf = inl s' /\ st_divs s' = st_divs s /\ st_cur s' = st_cur s /\
              st_regions s' = st_regions s /\ st_last_sn s' = st_last_sn s /\ st_in_ext s' = false.
 Proof.
-  intros Htb Hebn Hb. unfold process_tti. unfold text_block in Htb.
-  destruct ((239 <? t_ebn t) && (t_ebn t <? 255)); [discriminate|].
-  rewrite Hebn. cbn [Z.eqb Pos.eqb negb]. rewrite Hb. eexists. split; [reflexivity|]. repeat split.
+  intros Hb. unfold complete_subtitle. rewrite Hb. eexists. split; [reflexivity|]. repeat split.
 Qed.
 
 (* an intermediate (CS 2) or last (CS 3) member of a cumulative set is added to the open paragraph as a span timed by
    its own TCI/TCO, followed by a line break unless it is the last *)
-Lemma cumulative_member f s t sgn p :
-  text_block t = true -> t_ebn t = 255 -> t_cs t = 2 \/ t_cs t = 3 -> st_cur s = Some (sgn, p) ->
-  let tf := acc_tf s ++ strip_8f (t_tf t) in
+Lemma cumulative_member f s t tf sgn p :
+  t_cs t = 2 \/ t_cs t = 3 -> st_cur s = Some (sgn, p) ->
   let b := (offset_q (f_fps f) (t_tci t) - f_start f)%Q in
   let e := (offset_q (f_fps f) (t_tco t) - f_start f)%Q in
   q_neg b = false -> q_lt e b = false ->
-  exists s', process_tti f s t = inl s' /\
+  exists s', complete_subtitle f s t tf = inl s' /\
     st_cur s' = Some (sgn, mkPara (p_region p) (p_align p) (p_font_size p) (p_line_height p) (p_time p)
                                   (p_items p ++ [PSub b e (tf_model (decoder_of_cct (f_cct f)) (f_teletext f) tf ++
                                                            (if t_cs t =? 2 then [LBr] else []))])) /\
     st_divs s' = st_divs s /\ st_regions s' = st_regions s.
 Proof.
-  intros Htb Hebn Hcs Hcur tf b e Hb He.
-  unfold process_tti. unfold text_block in Htb.
-  destruct ((239 <? t_ebn t) && (t_ebn t <? 255)); [discriminate|].
-  rewrite Hebn. cbn [Z.eqb Pos.eqb negb].
-  fold (acc_tf s). fold tf. fold b. rewrite Hb. fold e. rewrite He.
-  destruct Hcs as [Hcs|Hcs]; rewrite Hcs; cbn [Z.eqb Pos.eqb orb andb]; rewrite andb_false_r; cbn [st_cur]; rewrite Hcur;
+  intros Hcs Hcur b e Hb He.
+  unfold complete_subtitle. fold b. rewrite Hb. fold e. rewrite He. unfold no_paragraph. rewrite Hcur.
+  destruct Hcs as [Hcs|Hcs]; rewrite Hcs; cbn [Z.eqb Pos.eqb orb andb]; rewrite andb_false_r; cbn [orb st_cur]; rewrite ?Hcur;
     eexists; (split; [reflexivity|]); cbn [st_cur st_divs st_regions]; rewrite ?app_nil_r; repeat split.
 Qed.
 
-Lemma grouping_partial f ts s t : st_in_ext s = false -> Forall ext_or_skip ts -> text_block t = true ->
-  Forall (fun x => trigger_strip (t_tf x) = false) (filter text_block (ts ++ [t])) ->
-  exists s', fold_blocks f s ts = inl s' /\
-             fst (block_view f s' t) = concat (map (fun x => text_of_field (t_tf x)) (filter text_block (ts ++ [t]))).
+(* a member of a cumulative set that arrives while no paragraph exists (its first member was dropped, or the file starts
+   in the middle of a set) starts a paragraph of its own (cumulative-before-first was repaired): no block makes the
+   reader fail for want of a paragraph *)
+Lemma no_attribute_error f s t tf : complete_subtitle f s t tf <> inr EAttribute.
 Proof.
-  intros Hs Hts Ht Hw. destruct (grouping_tf f ts s t Hs Hts Ht) as (s' & Hf & Hv).
-  exists s'. split; [exact Hf|]. rewrite Hv. exact (grouping_tf_spec _ Hw).
+  unfold complete_subtitle.
+  destruct (q_neg _); [discriminate|]. destruct (q_lt _ _); [discriminate|].
+  unfold no_paragraph. destruct (st_cur s) as [[sgn p]|] eqn:Hcur.
+  - rewrite orb_false_r. destruct (sn_differs _ _ && _).
+    + destruct (region_for _ _ _ _); [|discriminate]. destruct (get_region _ _). cbn [st_cur]. discriminate.
+    + cbn [st_cur]. rewrite ?Hcur. discriminate.
+  - rewrite orb_true_r. destruct (region_for _ _ _ _); [|discriminate]. destruct (get_region _ _). cbn [st_cur]. discriminate.
+Qed.
+Lemma process_no_attribute_error f s t : process_tti f s t <> inr EAttribute.
+Proof.
+  unfold process_tti. destruct (_ && _); [discriminate|]. destruct (t_cf t =? 1); [discriminate|].
+  destruct (negb _); [discriminate | apply no_attribute_error].
 Qed.
